@@ -83,12 +83,14 @@ package standard
 //@ requires [checked] exists c string :: (c + "|" + account + "|" + "Create account") in checkedset
 //@ ensures [endpoints] result2 == nil ==> (forall i int :: 0 <= i && i < len(result1) ==> result1[i] != nil)
 //@ func (*Service).checkAccess
-//@ requires s != nil
+//@ requires s != nil && s.checkerSvc != nil
 //@ modifies checkedset, deniedset
 //@ ensures [ok] result == core.ResultSucceeded ==> credentials != nil && (credentials.Client + "|" + accountName + "|" + action) in checkedset
 
 //@ func (*Service).OnGenerate
-//@ requires s != nil
+//@ requires s != nil && s.checkerSvc != nil
+// (main hands over at least one store: core.InitStores returns one per definition, or the default stores)
+//@ requires [stores] len(s.stores) > 0
 //@ modifies checkedset, deniedset
 //@ ensures [checked] result2 == nil ==> credentials != nil && (credentials.Client + "|" + account + "|" + ruler.ActionCreateAccount) in checkedset
 //@ ensures [threshold] result2 == nil ==> numParticipants >= 1 && signingThreshold <= numParticipants && 2 * signingThreshold > numParticipants
